@@ -398,6 +398,9 @@ def _d1(ctx):
 
 
 def run(ctx):
+    C.require_locals(ctx, ctx.func('ArchSemantics.assign_tp_lt'), ['instruction_form'])
+    C.require_locals(ctx, ctx.func('ISASemantics.assign_src_dst'), ['instruction_form'])
+    C.require_locals(ctx, ctx.func('ISASemantics.get_reg_changes'), ['instruction_form'])
     _r1(ctx)
     _r2_r3(ctx)
     _r4(ctx)
